@@ -310,6 +310,7 @@ func (g *Gen) callInner(x ssa.Value, cc *ssa.CallCommon, st *State) {
 	}
 	// frame
 	switch {
+	case ct.NoReturn: // control never comes back: the state after the call is irrelevant
 	case ct.Pure:
 	case !ct.ModSet || ct.ModAll:
 		g.havocAll(st)
@@ -876,7 +877,7 @@ func (g *Gen) typeAssert(x *ssa.TypeAssert, st *State) {
 }
 
 func (g *Gen) panicInstr(x *ssa.Panic, st *State) {
-	if g.c != nil && g.c.NoReturn {
+	if g.c != nil && (g.c.NoReturn || g.c.AllowPanic) {
 		st.r = "false"
 		return
 	}
